@@ -29,6 +29,18 @@ T = {
     text="Detection: get_logic / get_theory / the script's set-logic must enable every feature an independent extraction finds in generated formulas. Order: reflexivity, antisymmetry, transitivity of <=, combine as upper bound over ALL pairs and (via bit-row inclusion) all triples of the 1728 well-formed theories and over all pairs/triples of the named logics; derived relations consistent. Selection: get_closer_logic / most_generic_logic judged against their specification for every named target x shipped lists and drawn subsets (incl. anonymous targets).",
     note="Trusted: feature extraction in vf/checks/c13.py (non-linear = product of >=2 symbol-mentioning factors, symbol-mentioning divisor, or pow); theories restricted to well-formed ones; difference logic not judged.",
     technique="exhaustive enumeration of the finite order/selection spaces + property-based differential feature extraction"),
+ "C04": dict(level="exploration", design="4/C04",
+    text="Hypothesis rule-based state machine over three environments: blueprints are built along generated routes (child order, constant spellings, list/varargs/generator, derived constructors), existing structures are rebuilt by other routes, and source formulas are normalized into a target environment. After every step the harness checks: same structural key <=> same object against every object created so far, all accessors / predicates / args identity / array_value_get agree with the blueprint, copies are structurally identical, hash-consed in the target, stable, and share no node with the source.",
+    note="Trusted: the normal-form function norm() in vf/checks/c04.py (documented constructor normalisations) and reftype.",
+    technique="stateful (model-based) property testing with Hypothesis RuleBasedStateMachine against a key->object reference model"),
+ "C05": dict(level="exploration", design="4/C05",
+    text="Generated formulas with nested/shadowing finite-sort binders and shared sub-DAGs x type-correct maps: symbol keys are judged by the substitution lemma with the reference evaluator (MGS and MSS); arbitrary sub-term keys (overlapping, nested, chained keys that only appear after an inner replacement, keys mentioning bound variables) are judged by object identity against an independent recursive definition of MGS / MSS with the documented binder rule; function interpretations must remove every application and agree in value.",
+    note="Trusted: vf/refsem.py; recursive reference definitions in vf/checks/c05.py; the capture class that violates the property's proviso is executed but not judged; a constructor rejection below a matched key is an accepted rejection.",
+    technique="property-based testing: metamorphic substitution lemma via reference evaluation + differential test against a recursive reference implementation"),
+ "C10": dict(level="exploration", design="4/C10",
+    text="Generated Boolean structure over theory atoms (incl. Boolean selects, UF) with nested/shadowing finite-sort quantifiers, arithmetic terms, and conjunctions with top-level equalities are passed to nnf, prenex_normal_form, aig, TimesDistributor, conjunctive/disjunctive partition, propagate_toplevel (both modes) and both Boolean QE procedures; each result must have the same value under all (<=128) or 12 sampled interpretations, introduce no free symbol, and satisfy the advertised shape predicate.",
+    note="Trusted: vf/refsem.py and the shape predicates in vf/checks/c10.py. Quantifiers evaluated over finite sorts only; calls exceeding 5 s or evaluations exceeding the step budget are inconclusive (counted), never violations.",
+    technique="property-based equivalence testing by exhaustive/sampled reference evaluation + shape predicates"),
 }
 
 checks, na = [], []
